@@ -445,18 +445,28 @@ class _HashableProxy:
 
   module_ref: weakref.ref
   hash_key: int
+  # The fingerprint itself is kept (and compared) as well: two different
+  # fingerprints can have the same hash, in particular when they contain
+  # objects hashed by identity (e.g. functions) and an old object was garbage
+  # collected and its address reused. Holding the fingerprint keeps such objects
+  # alive for as long as a trace made for them can be found in the cache.
+  fingerprint: Any = None
 
   @classmethod
   def from_module(cls, module: Module) -> '_HashableProxy':
     fingerprint = _module_fingerprint(module)
     hash_key = hash(fingerprint)
-    return cls(weakref.ref(module), hash_key)
+    return cls(weakref.ref(module), hash_key, fingerprint)
 
   def __hash__(self):
     return self.hash_key
 
   def __eq__(self, other):
-    return isinstance(other, _HashableProxy) and self.hash_key == other.hash_key
+    return (
+      isinstance(other, _HashableProxy)
+      and self.hash_key == other.hash_key
+      and self.fingerprint == other.fingerprint
+    )
 
   @property
   def module(self):
